@@ -214,6 +214,38 @@ def main():
                         tasks.append(('sign-opts', t_sign_opts(toy, 'opts', hid, enc, selfv, L)))
         chk.bounds.append('Sign(opts): opts in {nil, crypto.Hash{SHA-1,SHA-256,SHA-512}, *ECDSAOptions with hash {0,SHA-256,SHA-512} x encoding {0,1,2,3,-1,-1000,2^40} x SelfVerify}, digest lengths {31,32,48,64}')
 
+
+    # ---------------------------------------------------------------- full width: the low-s normalisation step of sign()
+    # (the toy curves have one-limb scalars; the two statements that make s low are therefore also decided on 256-bit values)
+    def t_lows_full(sub):
+        from . import models
+        from .common import sym_limbs, cat_limbs, N_ORDER
+        SC = '(*' + MOD + '.Scalar).'
+
+        def h(ctx):
+            m = new_machine(prog, ctx, gl, value_model=True)
+            models.install_value_model(m, mul='uf', which=('scalar',))
+            sl = sym_limbs('s')
+            S = tm.lift(cat_limbs(sl), 256)
+            ctx.assume(tm.ult(S, N_ORDER, 256))
+            ctx.assume(tm.bnot(tm.eq(S, 0, 256)))
+            sp = X.Ptr(m.new_obj(None, tree=[[], list(sl)], label='s'), ())
+            neg = m.call(SC + 'IsGreaterThanHalfN', [sp])
+            half = (N_ORDER - 1) // 2
+            ctx.check(tm.eq(neg, tm.ite(tm.ult(half, S, 256), 1, 0, 64), 64), 'bv:negateS=(s>(n-1)/2)')
+            m.call(SC + 'ConditionalNegate', [sp, sp, neg])
+            S2 = tm.lift(cat_limbs(list(m.load(sp)[1])), 256)
+            ctx.check(tm.ule(S2, half, 256), "bv:s'<=(n-1)/2")
+            ctx.check(tm.bnot(tm.eq(S2, 0, 256)), "bv:s'!=0")
+            ctx.check(tm.eq(S2, tm.ite(tm.ult(half, S, 256), tm.bv('sub', N_ORDER, S, 256), S, 256), 256), "bv:s'=min(s,n-s)")
+            sub.note_machine(m)
+            return 'ok'
+        paths = sub.explore('exact/low-s-normalisation', h, mode='bv')
+        sub.add('exact/low-s-normalisation/witness', [], any(p.outcome == 'ok' for p in paths))
+    if not only or 'lows' in only:
+        tasks.append(('lows', t_lows_full))
+        chk.bounds.append('low-s step of sign() (IsGreaterThanHalfN + ConditionalNegate) at full width: every s in [1,n)')
+
     chk.run_tasks(tasks)
     chk.discharge()
     chk.finish()
